@@ -29,6 +29,7 @@ type EvalCtx struct {
 	outer  *State
 	prev   *State
 	pre    *State
+	qdepth int
 	quiet  bool // do not report evaluation errors of use clauses (they are evaluated at several points)
 	mode   int // 1: goal position (skolemise universally quantified conjuncts)
 }
@@ -405,11 +406,17 @@ func (ev *EvalCtx) eval(e *Expr) (SVal, error) {
 		return SVal{}, fmt.Errorf("cannot slice sort %s", x.S)
 	case "forall", "exists":
 		n := ev
+		{
+			cp := *ev
+			cp.qdepth = ev.qdepth + 1
+			n = &cp
+		}
 		var binds []string
 		for _, v := range e.Vars {
 			s, gt := c.eng.resolveType(ev.pkg, v.Type)
-			c.nfresh++
-			nm := fmt.Sprintf("%s!q%d", v.Name, c.nfresh)
+			// deterministic names (by nesting depth) so that the same clause evaluated twice gives the same text;
+			// nested quantifiers over the same variable name get different depths, so no capture
+			nm := fmt.Sprintf("%s!q%d", v.Name, n.qdepth)
 			binds = append(binds, "("+nm+" "+s+")")
 			n = n.bind(v.Name, SVal{T: nm, S: s, GT: gt})
 		}
